@@ -1,6 +1,7 @@
 """Writes /tmp/agent11-cNN.txt: the task text for a fresh seeding sub-agent per property (property text + anchors, the
 earlier seeds as "already tried" sites; nothing else from /verif).  The template is the round-5 prompt of C11."""
 import json, re, os, glob, sys
+R = os.environ.get('ROUND', '12')
 props = {json.loads(l)['id']: json.loads(l) for l in open('/verif/properties.jsonl')}
 seeds = []
 for d in sorted(glob.glob('/verif/seeded/*/')):
@@ -21,9 +22,9 @@ task = template[tail_start:tail_end]
 end = template[template.index('WHEN DONE'):]
 for pid, p in props.items():
     n = pid[1:]
-    wt = '/tmp/wt11-c%s' % n
+    wt = '/tmp/wt%s-c%%s' % (R, n) if False else '/tmp/wt'+R+'-c%s' % n
     def fix(t):
-        return t.replace('/tmp/wt5-c11', wt).replace('seed5-c11', 'seed11-c%s' % n)
+        return t.replace('/tmp/wt5-c11', wt).replace('seed5-c11', 'seed'+R+'-c%s' % n)
     own = [s for s in seeds if s[1] == pid]
     other = [s for s in seeds if s[1] != pid]
     txt = fix(head)
@@ -34,5 +35,5 @@ for pid, p in props.items():
         txt += "  - %s (%s): needs %s\n" % (s[0], s[2], s[3])
     txt += "Sites used for other properties (avoid these too): " + "; ".join("%s (%s)" % (s[0], s[2]) for s in other) + "\n\n"
     txt += fix(end)
-    open('/tmp/agent11-c%s.txt' % n, 'w').write(txt)
+    open('/tmp/agent'+R+'-c%s.txt' % n, 'w').write(txt)
 print('ok')
